@@ -21,7 +21,7 @@
 #define PG_NP 4       /* pointer regs: p0 = main buffer (param), p1 = module data, p2/p3 = allocas */
 #define PG_BUF 256    /* bytes of every region */
 #define PG_MAXFUNC 8
-#define PG_MAXARGS 6
+#define PG_MAXARGS 12 /* more than the 6 integer argument registers: stack arguments */
 
 enum { V_I, V_D, V_F, V_L };
 enum { K_REG, K_IMM, K_MEM };
@@ -75,7 +75,7 @@ static node_t *pg_new (enum ntype t) {
 }
 
 /* ------------------------------------------------------------------ generator */
-typedef struct { vp_rng_t r; prog_t *p; int fidx; int budget; int depth; int nalloca; unsigned feat; int ret_emitted; int have_last[4]; opnd_t last_mem[4]; } pgen_t;
+typedef struct { vp_rng_t r; prog_t *p; int fidx; int budget; int depth; int nalloca; unsigned feat; int ret_emitted; int have_last[4]; opnd_t last_mem[4]; int force_w, force_callee; } pgen_t;
 #define PF_NO_LREF 1
 #define PF_NO_INLINE 2
 #define PF_NO_FP 4
@@ -232,6 +232,7 @@ static void pg_ctl_stmt (pgen_t *g) {
   prog_t *p = g->p; func_t *f = &p->f[g->fidx];
   if (g->depth >= 3) w = 99 - (int) vp_below (&g->r, 20); /* only leaf-ish things deep inside */
   if ((g->feat & PF_INLINE_BIAS) && g->fidx > 0 && vp_chance (&g->r, 35)) w = 55; /* a call */
+  if (g->force_w > 0) { w = g->force_w; g->force_w = 0; }
   if (w < 22) { /* if / if-else on an integer compare-and-branch or bt/bf */
     static const MIR_insn_code_t br[] = {MIR_BEQ, MIR_BNE, MIR_BLT, MIR_BLE, MIR_BGT, MIR_BGE, MIR_UBLT, MIR_UBGE, MIR_BEQS, MIR_BNES, MIR_BLTS, MIR_BGES, MIR_UBLTS, MIR_UBGTS, MIR_BT, MIR_BF, MIR_BTS, MIR_BFS, MIR_DBLT, MIR_DBGE, MIR_DBNE};
     node_t *n = pg_new (N_IF); if (!n) return;
@@ -260,9 +261,9 @@ static void pg_ctl_stmt (pgen_t *g) {
   } else if (w < 48) { /* switch / jmpi dispatch */
     node_t *n = pg_new (N_SWITCH); if (!n) return;
     n->n = (int) vp_range (&g->r, 2, 4);
-    n->variant = (int) vp_below (&g->r, 3);
+    n->variant = (int) vp_below (&g->r, 4); /* 3: like 1, but every label address is taken in one basic block (a local table) */
     if (n->variant == 2 && ((g->feat & PF_NO_LREF) || f->uses_lref)) n->variant = 0; /* one lref table per function at most */
-    if (n->variant == 1 && (g->feat & PF_NO_JMPI)) n->variant = 0;
+    if ((n->variant == 1 || n->variant == 3) && (g->feat & PF_NO_JMPI)) n->variant = 0;
     if (n->variant == 2) f->uses_lref = 1;
     n->creg = PG_NI - 2; n->a = pg_rnd_reg (g, V_I);
     p->n_switch++;
@@ -273,7 +274,9 @@ static void pg_ctl_stmt (pgen_t *g) {
   } else if (w < 60 && g->fidx > 0) { /* call a lower-numbered function */
     node_t *n = pg_new (N_CALL); if (!n) return;
     n->n = (int) vp_below (&g->r, g->fidx);
+    if (g->force_callee > 0) { n->n = g->force_callee - 1; g->force_callee = 0; }
     n->variant = !(g->feat & PF_NO_INLINE) && vp_chance (&g->r, 40);
+    if (!n->variant && vp_chance (&g->r, 40)) n->variant = 2; /* through the function's address in a register: never inlined, always the public address */
     func_t *cf = &p->f[n->n];
     n->nargs = cf->nparams;
     for (int k = 0; k < cf->nparams; k++) {
@@ -283,7 +286,7 @@ static void pg_ctl_stmt (pgen_t *g) {
       else n->args[k] = vp_chance (&g->r, 70) ? pg_rnd_reg (g, V_I) : pg_imm_i (pg_int (g));
     }
     for (int k = 0; k < cf->nres; k++) if (cf->rtype[k] == MIR_T_D) n->res_d = (int) vp_below (&g->r, PG_ND); else n->res_i = (int) vp_below (&g->r, PG_GEN);
-    p->n_calls++; if (n->variant) p->n_inline_calls++;
+    p->n_calls++; if (n->variant == 1) p->n_inline_calls++;
     pg_emit (n);
   } else if (w < 68) { /* external logging call */
     node_t *n = pg_new (N_EXT); if (!n) return;
@@ -352,11 +355,15 @@ static void pg_gen_prog (prog_t *p, uint64_t seed, long idx, unsigned feat, int 
   p->nmodules = (int) vp_range (&g->r, 1, max_modules);
   for (int i = 0; i < PG_BUF; i++) p->data_init[i] = (uint8_t) vp_next (&g->r);
   static const MIR_type_t nt[] = {MIR_T_I64, MIR_T_I64, MIR_T_I64, MIR_T_I8, MIR_T_U8, MIR_T_I16, MIR_T_U16, MIR_T_I32, MIR_T_U32, MIR_T_U64};
+  /* nest shape (C04): a chain of small functions, each with its frame allocated first, writing its frame, calling the next one twice and
+     reading its frame back; callers stand in front of their callees, so that one inlining pass nests several levels */
+  int nest = (feat & PF_INLINE_BIAS) && vp_chance (&g->r, 30);
+  if (nest && p->nf > 5) p->nf = 5;
   for (int fi = 0; fi < p->nf; fi++) {
     func_t *f = &p->f[fi];
     g->fidx = fi; g->depth = 0; g->nalloca = 0; memset (g->have_last, 0, sizeof g->have_last);
-    f->frame_first = vp_chance (&g->r, (feat & PF_INLINE_BIAS) ? 65 : 35); if (f->frame_first) { g->nalloca = 1; f->has_alloca = 1; p->n_alloca++; }
-    f->module = (int) vp_below (&g->r, p->nmodules);
+    f->frame_first = nest || vp_chance (&g->r, (feat & PF_INLINE_BIAS) ? 65 : 35); if (f->frame_first) { g->nalloca = 1; f->has_alloca = 1; p->n_alloca++; }
+    f->module = nest ? 0 : (int) vp_below (&g->r, p->nmodules);
     int last = fi == p->nf - 1;
     /* the last function is the entry: i64 entry (p buf, i64 a, i64 b) */
     if (last) { f->nparams = 3; f->ptype[0] = MIR_T_P; f->ptype[1] = MIR_T_I64; f->ptype[2] = MIR_T_I64; f->nres = 1; f->rtype[0] = MIR_T_I64; f->depth_param = -1; }
@@ -371,14 +378,24 @@ static void pg_gen_prog (prog_t *p, uint64_t seed, long idx, unsigned feat, int 
       f->depth_param = -1;
       if (vp_chance (&g->r, 25) && f->nparams >= 2 && f->ptype[1] != MIR_T_D) { f->depth_param = 1; f->ptype[1] = MIR_T_I64; }
     }
-    g->budget = (int) vp_range (&g->r, 2, getenv ("VP_BUDGET") ? atoi (getenv ("VP_BUDGET")) : 40);
-    f->big = !last && vp_chance (&g->r, 20);
-    pg_stmts (g, &f->body, g->budget);
+    g->budget = (int) vp_range (&g->r, 2, getenv ("VP_BUDGET") ? atoi (getenv ("VP_BUDGET")) : (feat & PF_INLINE_BIAS) && vp_chance (&g->r, 60) ? 12 : 40); /* small bodies nest deeper before the growth limit */
+    f->big = !last && !nest && vp_chance (&g->r, 20);
+    if (nest) {
+      node_t **save = pg_tail; pg_tail = &f->body;
+      opnd_t m; memset (&m, 0, sizeof m); m.kind = K_MEM; m.vt = V_I; m.mt = MIR_T_I64; m.base = 2; m.idx = -1; m.scale = 1; m.disp = 8 * (int64_t) vp_below (&g->r, 30);
+      g->budget = 3; pg_int_stmt (g);
+      pg_emit (pg_op (MIR_MOV, m, pg_gen_reg (g), m));
+      for (int c = 0; c < 2 && fi > 0; c++) { g->force_w = 55; g->force_callee = fi; /* = callee fi - 1 */ pg_ctl_stmt (g); if (vp_chance (&g->r, 50)) pg_int_stmt (g); }
+      pg_emit (pg_op (MIR_ADD, pg_reg (V_I, 0), pg_reg (V_I, 0), m));
+      g->force_w = g->force_callee = 0; pg_tail = save;
+    } else
+      pg_stmts (g, &f->body, g->budget);
     p->n_nodes = pg_pool_used;
   }
   for (int i = 0; i < p->nf; i++) p->order[i] = i;
   p->permuted = vp_chance (&g->r, (feat & PF_INLINE_BIAS) ? 75 : 40);
-  if (p->permuted) for (int i = p->nf - 1; i > 0; i--) { int j = (int) vp_below (&g->r, (uint64_t) i + 1), x = p->order[i]; p->order[i] = p->order[j]; p->order[j] = x; }
+  if (nest) { p->permuted = 1; for (int i = 0; i < p->nf; i++) p->order[i] = p->nf - 1 - i; }
+  else if (p->permuted) for (int i = p->nf - 1; i > 0; i--) { int j = (int) vp_below (&g->r, (uint64_t) i + 1), x = p->order[i]; p->order[i] = p->order[j]; p->order[j] = x; }
   p->shape = vp_hash_mix (vp_hash_mix ((uint64_t) p->nf * 131 + p->n_calls * 17 + p->n_loops * 7 + p->n_switch * 5 + p->n_irred * 3 + p->n_ovf, (uint64_t) p->n_nodes), (uint64_t) p->n_fp * 1009 + p->n_alloca * 13 + p->n_narrow);
 }
 
@@ -444,13 +461,19 @@ static void pg_pnodes (MIR_context_t ctx, ptxt_t *t, const prog_t *p, int fi, co
         P (t, " laddr i%d, C%d_%d_0\n", PG_NI - 1, fi, l);
         for (int k = 1; k < n->n; k++) P (t, " bne N%d_%d_%d, i%d, %d\n laddr i%d, C%d_%d_%d\nN%d_%d_%d:\n", fi, l, k, n->creg, k, PG_NI - 1, fi, l, k, fi, l, k);
         P (t, " jmpi i%d\n", PG_NI - 1);
+      } else if (n->variant == 3) {
+        for (int k = 0; k < n->n; k++) P (t, " laddr q%d, C%d_%d_%d\n", k, fi, l, k);
+        P (t, " mov i%d, q0\n", PG_NI - 1);
+        for (int k = 1; k < n->n; k++) P (t, " bne N%d_%d_%d, i%d, %d\n mov i%d, q%d\nN%d_%d_%d:\n", fi, l, k, n->creg, k, PG_NI - 1, k, fi, l, k);
+        P (t, " jmpi i%d\n", PG_NI - 1);
       } else { P (t, " mov i%d, lrt%d\n mov i%d, p:(i%d, i%d, 8)\n jmpi i%d\n", PG_NI - 1, fi, PG_NI - 1, PG_NI - 1, n->creg, PG_NI - 1); }
       for (int k = 0; k < n->n; k++) { P (t, "C%d_%d_%d:\n", fi, l, k); pg_pnodes (ctx, t, p, fi, n->body[k]); if (k + 1 < n->n) P (t, " jmp E%d_%d\n", fi, l); }
       P (t, "E%d_%d:\n", fi, l);
       if (n->variant == 2) ((node_t *) n)->res_i = l; /* remember the label number for the lref table */
       break; }
     case N_CALL: { const func_t *cf = &p->f[n->n];
-      P (t, " %s pr%d, fn%d", n->variant ? "inline" : "call", n->n, n->n);
+      if (n->variant == 2) P (t, " mov i%d, fn%d\n call pr%d, i%d", PG_NI - 1, n->n, n->n, PG_NI - 1);
+      else P (t, " %s pr%d, fn%d", n->variant ? "inline" : "call", n->n, n->n);
       for (int k = 0; k < cf->nres; k++) { if (cf->rtype[k] == MIR_T_D) P (t, ", d%d", n->res_d); else P (t, ", i%d", n->res_i); }
       for (int k = 0; k < n->nargs; k++) { P (t, ", "); if (n->args[k].kind == K_REG && n->args[k].reg < 0) P (t, "p%d", n->args[k].base); else pg_popnd (t, &n->args[k]); }
       P (t, "\n"); break; }
@@ -520,7 +543,7 @@ static char *pg_print (MIR_context_t ctx, const prog_t *p) {
       for (int k = 0; k < PG_NF; k++) P (t, ", f:f%d", k);
       for (int k = 0; k < PG_NL; k++) P (t, ", ld:l%d", k);
       for (int k = 0; k < PG_NP; k++) P (t, ", i64:p%d", k);
-      P (t, "\n");
+      P (t, ", i64:q0, i64:q1, i64:q2, i64:q3\n"); /* label addresses of a local dispatch table */
       /* prologue: every register defined */
       if (f->frame_first) P (t, " alloca p2, %d\n mov i9, 0\nZF%d:\n mov i64:(p2, i9, 8), 0\n add i9, i9, 1\n blt ZF%d, i9, %d\n mov p0, a0\n mov p1, gdata\n mov p3, a0\n", PG_BUF, fi, fi, PG_BUF / 8);
       else P (t, " mov p0, a0\n mov p1, gdata\n mov p2, a0\n mov p3, a0\n");
